@@ -44,6 +44,10 @@ ASSUMPTIONS = [
     'the configuration is built with validate=False (so an unknown environment surfaces as FlowIREnvironmentUnknown '
     'from environmentForNode, the error named by the property, instead of a load-time validation error)',
     'environment variable names are ASCII identifiers; values are ASCII',
+    'configuration sessions (harness/c17_csession.py, Env.SessModel): the configuration object is created in memory '
+    '(concrete=FlowIRConcrete(document)) and parametrize()d with validate=False and no variable files, so parametrize() rebuilds '
+    'it from the document of creation (environments added with add_environment are dropped - modelled); add_environment '
+    'targets platform default or the active platform',
 ]
 HEADER = 'Require Import V.Env.Model.\nOpen Scope string_scope.\nOpen Scope list_scope.'
 PATH_VARS = ['PATH', 'PYTHONPATH', 'PYTHONHOME', 'LD_LIBRARY_PATH']
@@ -556,7 +560,14 @@ def run(ctx):
                 'fresh object and - configurations - with the document without the environments of other names: systematic family '
                 'first-question x platform X then platform Y (30), systematic family two environments where one defines a name '
                 'the other references x declaration order x global/foreign/own (6 x 12 questions), 400 (thorough 6000) random '
-                'sessions; non-trivial = a '
+                'sessions; CONFIGURATION SESSIONS: ONE FlowIRExperimentConfiguration object whose inputs change between questions - '
+                'parametrize(platform, systemvars, primitive), add_environment(name, env, platform None/default/active), os.environ '
+                'replaced - questions environmentForNode + environmentWithName(expand=False), environmentWithName(name), '
+                'defaultEnvironment(); every answer vs Env.SessModel on the CURRENT state and vs a fresh configuration object of the '
+                'current inputs: systematic family platform X -> Y -> X x default environment declared by each subset of '
+                '{default,p,q} x route (48), family add_environment x platform x route x target x declared-on-default (24), family '
+                'launch environment changed x platform x route x default environment declared (8), 3 fixed, 120 (thorough 2000) '
+                'random sessions of 4-10 operations; non-trivial = a '
                 'non-empty declared environment is selected (named or default); distinct by full case')
     cases = list(CORPUS) + exhaustive()
     ctx.count('exhaustive_product_cases', len(cases) - len(CORPUS))
@@ -575,6 +586,8 @@ def run(ctx):
     explore_subst(ctx, subst_cases(rng, ctx.tier))
     import c17_session
     c17_session.explore_sessions(ctx, c17_session.session_cases(rng, ctx.tier))
+    import c17_csession
+    c17_csession.explore_csessions(ctx, c17_csession.csession_cases(rng, ctx.tier))
 
 
 def replay(ctx, path):
@@ -586,6 +599,9 @@ def replay(ctx, path):
     if isinstance(c, dict) and 'session' in c:
         import c17_session
         c17_session.explore_sessions(ctx, [c])
+    elif isinstance(c, dict) and 'csession' in c:
+        import c17_csession
+        c17_csession.explore_csessions(ctx, [c])
     elif isinstance(c, dict) and 'subst' in c:
         explore_subst(ctx, [c])
     elif not c or 'envs' not in c:
